@@ -48,6 +48,7 @@ func (p c08) Run(runseed uint64, tier string, acc *Acc) []*core.Violation {
 	}
 	fo.LargePct = 1
 	fo.GiantPct = 5
+	fo.MillionPer100k = 200
 	if tier == "thorough" {
 		fo.LargePct = 2
 	}
@@ -98,11 +99,18 @@ func (p c08) Run(runseed uint64, tier string, acc *Acc) []*core.Violation {
 	if f.W.Giant {
 		acc.Inc("class/giant-page")
 	}
+	if f.W.Million {
+		acc.Inc("class/million-rows")
+	}
 	if f.W.Huge {
 		acc.Inc("class/huge-values")
 	}
 	for c := 1; c <= maxReq; c++ {
 		switch {
+		case f.W.Million: // one pass over half a million rows costs ~0.1 s: a handful of chunk sizes
+			if c == 1 || c == 7 || c == 1000 || c == 4096 || c == 65536 {
+				addAll(core.Frag{Policy: "fixed", Arg: c})
+			}
 		case c > 512: // only large files request this much at once: seeded sample of about 64 sizes
 			if r.Intn(maxReq) < 64 {
 				addAll(core.Frag{Policy: "fixed", Arg: c})
@@ -118,6 +126,9 @@ func (p c08) Run(runseed uint64, tier string, acc *Acc) []*core.Violation {
 	nr := 6
 	if tier == "thorough" {
 		nr = 24
+	}
+	if f.W.Million {
+		nr = 2
 	}
 	for i := 0; i < nr; i++ {
 		addAll(core.Frag{Policy: "random", Seed: r.Uint64()})
